@@ -76,8 +76,8 @@ def workflow_text(scn, perm, order, shapes):
     for t in order:
         si, so = shapes[t]
         lines.append(
-            "gwf.target(%r, inputs=%r, outputs=%r) << %r"
-            % (perm[t], defs.shape(sorted(scn["in"][t]), si), defs.shape(sorted(scn["out"][t]), so), defs.SPEC_TEXT % t)
+            "gwf.target(%r, inputs=%s, outputs=%s) << %r"
+            % (perm[t], defs.shape_src(sorted(scn["in"][t]), si), defs.shape_src(sorted(scn["out"][t]), so), defs.SPEC_TEXT % t)
         )
     return "\n".join(lines) + "\n"
 
@@ -106,6 +106,12 @@ def setup_project(sb, scn, variant, backend, extra_conf=None):
     conf.update(extra_conf or {})
     sb.write(".gwfconf.json", json.dumps(conf))
     os.makedirs(sb.path(".gwf/logs"), exist_ok=True)
+    if variant % 3:
+        # logs left by earlier runs: of present targets and of a target that has since been removed from the
+        # workflow (a preview must not tidy them up; only a real run with log cleaning may)
+        for n in [perm[t] for t in T if scn["b"][t] != "U"] + ["Removed_step"]:
+            for ext in ("stdout", "stderr"):
+                sb.write(".gwf/logs/%s.%s" % (n, ext), "earlier output of %s\n" % n)
     trk = {}
     squeue, sacct, qstat, bjobs = [("77", "PD"), ("78", "R")], [("77", "PENDING")], [("77", "qw")], [("77", "PEND")]
     for k, t in enumerate(sorted(T)):
